@@ -461,6 +461,8 @@ func (s *Server) handleRPCReplenishAccounts(stream net.Conn) error {
 		return errorDecodingError("failed to read request: %v", err)
 	} else if err := req.Validate(); err != nil {
 		return rhp4.NewRPCError(rhp4.ErrorCodeBadRequest, err.Error())
+	} else if err := validateUniqueAccounts(req.Accounts); err != nil {
+		return err
 	}
 
 	// lock the existing contract
@@ -535,6 +537,8 @@ func (s *Server) handleRPCReplenishPools(stream net.Conn) error {
 		return errorDecodingError("failed to read request: %v", err)
 	} else if err := req.Validate(); err != nil {
 		return rhp4.NewRPCError(rhp4.ErrorCodeBadRequest, err.Error())
+	} else if err := validateUniqueAccounts(req.Accounts); err != nil {
+		return err
 	}
 
 	state, unlock, err := s.lockContractForRevision(req.ContractID)
@@ -1389,6 +1393,20 @@ func (s *Server) Serve(t TransportMux, log *zap.Logger) error {
 			s.handleHostStream(stream, log)
 		}()
 	}
+}
+
+// validateUniqueAccounts rejects a replenish request that lists an account or
+// pool more than once: every deposit is computed from the balance before the
+// RPC, so a duplicate would be credited twice and end above the target.
+func validateUniqueAccounts(accounts []rhp4.Account) error {
+	seen := make(map[rhp4.Account]struct{}, len(accounts))
+	for _, a := range accounts {
+		if _, ok := seen[a]; ok {
+			return errorBadRequest("account %v is listed more than once", a)
+		}
+		seen[a] = struct{}{}
+	}
+	return nil
 }
 
 // errorBadRequest is a helper to create an rpc BadRequest error
